@@ -26,26 +26,45 @@ from props import c13
 
 LEVEL = "model_checking"
 BUILDS = ("api", "verify_cpy", "verify_gen")
+OBJ_OPS = ("mk", "rdobj", "wrobj", "passobj", "same", "drop")
 CLAUSE = {"exc": "a build raised a different exception type (or none) than the library machine",
           "ret": "a build returned a different value than the library machine",
           "static": "a build exposes different names / a different struct layout than declared (gcc reference)"}
 CLAUSE.update(c13.CLAUSE)
+OBJ_CFG = """SPECIFICATION Spec
+CONSTANTS Base = 4
+  Variant = "%s"
+PROPERTY ResultsIndependent
+PROPERTY DistinctObjects
+CHECK_DEADLOCK FALSE
+"""
 QUOTA = {"sel": 7, "sum": 2, "wr": 2, "rdi": 2, "bump": 1, "seterr": 1, "smake": 2, "sget": 2, "vsum": 3,
          "isum": 1, "asum": 2}
 
 
 def design_level(ctx):
     dump = os.path.join(ctx.tmp, "libgraph")
-    with ThreadPoolExecutor(max_workers=2) as ex:
+    dump2 = os.path.join(ctx.tmp, "objgraph")
+    with ThreadPoolExecutor(max_workers=4) as ex:
         fg = ex.submit(R.run_gen, 2, 6)
         fm = ex.submit(core.tlc, "MC_CallLib", workers=4, dump=dump, timeout=1200)
+        fo = ex.submit(core.tlc, "MC_CallLibObj", workers=2, dump=dump2, timeout=1200, env=R.LIGHT_JVM)
+        fv = ex.submit(core.tlc, "MC_CallLibObj", cfg_text=OBJ_CFG % "shared_result_buffer", workers=1, timeout=600,
+                       env=R.LIGHT_JVM)
         r = fm.result()
         ctx.add_tlc("MC_CallLib(3 globals, Base=4)", r)
+        r2 = fo.result()
+        ctx.add_tlc("MC_CallLibObj(2 kept results, Base=4)", r2)
+        rv = fv.result()
+        ctx.add_tlc("sanity:shared_result_buffer", rv, require_ok=False, count_states=False)
+        if rv.ok or "ResultsIndependent" not in rv.out:
+            raise core.MachineryError("broken variant shared_result_buffer was not rejected by TLC")
         space = R.parse_space(ctx, *fg.result())
     g = tlaval.load_dot(dump + ".dot")
-    if len(g.states) != r.distinct:
-        raise core.MachineryError("state graph dump incomplete: %d of %d states" % (len(g.states), r.distinct))
-    return g, space
+    g2 = tlaval.load_dot(dump2 + ".dot")
+    if len(g.states) != r.distinct or len(g2.states) != r2.distinct:
+        raise core.MachineryError("state graph dump incomplete")
+    return (g, g2), space
 
 
 def pick_sigs(ctx, sigs, scale):
@@ -82,6 +101,9 @@ def walk_events(ctx, g, lib, b, nwalks, length, extra):
     kind = {1: [i for i, (_n, t, _v) in enumerate(globs) if t in L.SIGNED],
             2: [i for i, (_n, t, _v) in enumerate(globs) if t in L.UNSIGNED],
             3: [i for i, (_n, t, _v) in enumerate(globs) if t == "bool"]}
+    g, g2 = g
+    owalks = tlaval.walks(g2, rng, nwalks, maxlen=length)
+    rt = lib.get("rtype", "i32")
     traces = []
     for w, path in enumerate(tlaval.walks(g, rng, nwalks, maxlen=length)):
         choice = {k: rng.choice(v) for k, v in kind.items()}
@@ -100,6 +122,15 @@ def walk_events(ctx, g, lib, b, nwalks, length, extra):
             ev = {"op": op, "i": gi + 1, "name": name, "expect": last["exc"], "cls": last["cls"]}
             if op in ("writeg", "setg"):
                 ev["desc"] = L.value_for(b, t, last["cls"])
+            evs.append(ev)
+        for _act, _args, st in owalks[w]:            # result objects: keep, call again, read / write / pass / compare
+            last = st["last"]
+            ev = {"op": last["op"], "j": last["j"], "k": last["k"], "f": last["f"], "expect": last["exc"],
+                  "cls": "%s,%s" % (last["c1"], last["c2"])}
+            if last["op"] == "mk":
+                ev["descs"] = [b.int_arg(rt, last["c1"]), b.bool_arg(last["c2"])]
+            elif last["op"] == "wrobj":
+                ev["desc"] = b.int_arg(rt, last["c1"]) if last["f"] == 1 else b.bool_arg(last["c2"])
             evs.append(ev)
         for _ in range(extra):                      # code -> spec: any global, any value class
             gi = rng.randrange(len(globs))
@@ -132,6 +163,10 @@ def lib_records(lib, traces, obs, names_ref, layout_ref):
             for ev, o in zip(tr["events"], obs[tr["id"]][build]):
                 if ev["op"] == "static":
                     evs.append({"op": "static", "obs": o, "ref": names_ref if ev["what"] == "names" else layout_ref})
+                elif ev["op"] in OBJ_OPS:
+                    evs.append({"op": ev["op"], "j": ev["j"], "k": ev["k"], "f": ev["f"], "expect": ev["expect"], "obs": o,
+                                "v": G.enc_desc(ev["desc"], []) if "desc" in ev else {"k": "none"},
+                                "vs": [G.enc_desc(d, []) for d in ev.get("descs", [])]})
                 else:
                     e = {"op": ev["op"], "i": ev["i"], "expect": ev["expect"], "obs": o,
                          "v": G.enc_desc(ev["desc"], []) if "desc" in ev else {"k": "none"}}
@@ -218,7 +253,8 @@ def one_library(ctx, g, space, tag, scale):
         ev = tr["events"][pos - 1]
         if clause == "expect":
             raise core.MachineryError("MC_CallLib (Base 4) and the machine at Base 256 disagree on %r of %r" % (ev, lib["globals"]))
-        gt = lib["globals"][ev["i"] - 1][1] if ev["op"] in ("readg", "writeg", "getg", "setg") else ev.get("what", "const")
+        gt = (lib["globals"][ev["i"] - 1][1] if ev["op"] in ("readg", "writeg", "getg", "setg")
+              else "R" if ev["op"] in OBJ_OPS else ev.get("what", "const"))
         ctx.violation("lib:%s:%s(%s)[%s]:%s" % (build, ev["op"], gt, ev.get("cls", ""), clause), CLAUSE.get(clause, clause),
                       {"part": "lib", "build": build, "lib": lib, "events": tr["events"][:pos], "position": pos,
                        "observed": tobs[tr["id"]][build][:pos], "cdef": cdef, "src": src})
